@@ -1,12 +1,25 @@
 /-
   C04 — the event parser reports exactly what the WBXML bytes denote.
-  Theorems about `Model.parse`; the byte-exact tie of the model to `wbxml_parser.c` is the PARSE
-  correspondence run by tools/props/c04.py, which also compares the implementation with an
-  oracle written from the WBXML specification (tools/specgen.py).
+
+  `Spec/Wbxml.lean` is the WBXML 1.0–1.3 grammar (`Spec.Doc`), its serialisation (`Spec.ser`) and
+  the event stream the specification assigns to a document (`Spec.events`). The central theorem
+  `parse_ser` says: for EVERY well-formed document (any size, any nesting depth, any language of
+  `cfg.main`, any token of its tables) the parser model run on the document's octets succeeds
+  and delivers exactly the specified events. It is proved production by production
+  (`Lemmas/ParseSer*.lean`: "running parser function F on `ser x ++ suf` consumes exactly `ser x`,
+  leaves `suf` untouched, yields `events x` and the code pages the specification computes") by
+  induction on the fuel, which the serialised length bounds.
+
+  The byte-exact tie of the model to `wbxml_parser.c` is the PARSE correspondence run by
+  tools/props/c04.py, which also compares the implementation with an oracle written from the
+  WBXML specification (tools/specgen.py).
 -/
-import Wbxml.Model.Parser
+import Wbxml.Lemmas.ParseSerHeader
+import Wbxml.Lemmas.ParseSerElem
+import Wbxml.Gen.Tables
+set_option maxRecDepth 100000
 namespace Wbxml.Props.C04
-open Wbxml Wbxml.Model
+open Wbxml Wbxml.Model Wbxml.Spec Wbxml.Lemmas.ParseSer
 
 /-- An empty input is refused before any event is delivered. -/
 theorem empty_rejected (cfg : PCfg) : (parse cfg []).result = .error (.code E.emptyWbxml) ∧
@@ -18,5 +31,417 @@ theorem empty_rejected (cfg : PCfg) : (parse cfg []).result = .error (.code E.em
 theorem header_failure_delivers_nothing (cfg : PCfg) (bs : Bytes) (e : Err)
     (h : parseHeader cfg bs = .error e) : (parse cfg bs).events = [] ∧ (parse cfg bs).result = .error e := by
   simp [parse, h]
+
+/-! ## The central theorem -/
+
+/-- For every well-formed document, followed by arbitrary octets that do not start another
+    processing instruction: the run succeeds, the events are exactly those the specification
+    assigns, and exactly the document's octets are consumed. -/
+theorem parse_ser_trailing (cfg : PCfg) (d : Doc) (h : d.WF cfg) (trail : Bytes) (ht : trail.head? ≠ some 0x43) :
+    (parse cfg (ser d ++ trail)).result = .ok () ∧
+    (parse cfg (ser d ++ trail)).events = events cfg d ∧
+    (parse cfg (ser d ++ trail)).consumed = (ser d).length := by
+  unfold Doc.WF Doc.wf at h
+  rw [Bool.and_eq_true] at h
+  obtain ⟨hh, hb⟩ := h
+  cases hl : headerLang cfg d.hdr with
+  | none => simp [hl] at hb
+  | some l =>
+    simp only [hl, Bool.and_eq_true] at hb
+    obtain ⟨⟨hpre, hroot⟩, hpost⟩ := hb
+    have hc := headerCtx_ok cfg d.hdr l hh
+    have hhdr := parseHeader_ser cfg d.hdr hh l hl (serBody d ++ trail)
+    have hbody := parseBody_ser (headerCtx cfg d.hdr l) d.hdr.version hc d.pre d.post d.root hpre hroot hpost
+      trail ht [Event.startDoc (headerCtx cfg d.hdr l).charset l.id]
+    unfold parse
+    simp only [ser, serBody, List.append_assoc] at hhdr ⊢
+    simp only [hhdr, hbody, events, hl]
+    refine ⟨trivial, by simp, ?_⟩
+    simp only [List.length_append]
+    omega
+
+/-- **C04.** For ALL well-formed documents `d` over the languages of `cfg.main` (unbounded size
+    and depth): parsing `ser d` succeeds and delivers exactly `Spec.events cfg d`. -/
+theorem parse_ser (cfg : PCfg) (d : Doc) (h : d.WF cfg) :
+    (parse cfg (ser d)).result = .ok () ∧ (parse cfg (ser d)).events = events cfg d := by
+  have := parse_ser_trailing cfg d h [] (by simp)
+  rw [List.append_nil] at this
+  exact ⟨this.1, this.2.1⟩
+
+/-! ## The stages (each production: consumes exactly its octets, yields its meaning) -/
+
+/-- (a) `mb_u_int32`: every 32-bit value written in the variable-length form is read back. -/
+theorem parse_ser_mbuint32 (c : Ctx) (ver v : Nat) (hv : v < 4294967296) (suf : Bytes) (tp ap : Nat) (cur) :
+    parseMb (st c ver (mb v ++ suf) tp ap cur) = .ok (v, st c ver suf tp ap cur) :=
+  parseMb_ser c ver v hv suf tp ap cur
+
+/-- (a) Header: `parseHeader (serHeader h ++ body)` consumes exactly the header, installs the
+    string table and selects the language and character set the header denotes — numeric public
+    identifier, textual identifier through the string table (ASCII case-insensitively), or the
+    forced language (`headerLang`); charset field, meta charset or UTF-8 (`headerCharset`). -/
+theorem parse_ser_header (cfg : PCfg) (h : Header) (hwf : wfHeader cfg h = true) (l : Lang)
+    (hl : headerLang cfg h = some l) (body : Bytes) :
+    parseHeader cfg (serHeader h ++ body) = .ok (st (headerCtx cfg h l) h.version body 0 0 none, l) :=
+  parseHeader_ser cfg h hwf l hl body
+
+/-- (b)–(d), (f) Elements: token and literal tags, nesting to any depth, `END` balance, tag-space
+    `SWITCH_PAGE`, inline strings, table references at any offset, entities, opaque data (typed
+    by the enclosing tag), extensions and processing instructions as content. -/
+theorem parse_ser_element (c : Ctx) (ver) (hc : c.ok = true) (e : Elem) (slot : Option TagRow) (pg : Pages)
+    (hwf : wfElem c slot pg e = true) (suf : Bytes) (ev : List Event) (f : Nat) (hf : (serElem e).length ≤ f) :
+    parseElement f ev (st c ver (serElem e ++ suf) pg.tag pg.attr slot) =
+      .ok (ev ++ (evElem c pg e).1, st c ver suf (evElem c pg e).2.tag (evElem c pg e).2.attr none) :=
+  parseElement_ser c ver hc e slot pg hwf suf ev f hf
+
+/-- (b) Content lists up to their `END`. -/
+theorem parse_ser_content (c : Ctx) (ver) (hc : c.ok = true) (items : List Item) (own slot : Option TagRow)
+    (pg : Pages) (hwf : wfItems c own slot pg items = true) (suf : Bytes) (ev : List Event) (f : Nat)
+    (hf : (serItems items).length + 1 ≤ f) :
+    contentLoop f ev (st c ver (serItems items ++ 0x01 :: suf) pg.tag pg.attr slot) =
+      .ok (ev ++ (evItems c own pg items).1,
+        st c ver (0x01 :: suf) (evItems c own pg items).2.tag (evItems c own pg items).2.attr (slotEnd slot items)) :=
+  contentLoop_ser c ver hc items own slot pg hwf suf ev f hf
+
+/-- (c) `STR_I` / `STR_T`: a table reference at ANY offset inside the table yields the string
+    that starts there. -/
+theorem parse_ser_string (c : Ctx) (ver) (hc : c.ok = true) (s : Str) (hs : wfStr c s = true)
+    (suf : Bytes) (tp ap cur) :
+    parseString (st c ver (serStr s ++ suf) tp ap cur) = .ok (strText c s, st c ver suf tp ap cur) :=
+  parseString_ser c ver hc s hs suf tp ap cur
+
+/-- (d) `ENTITY`: the UTF-8 form of the character (scalar values other than U+0000). -/
+theorem parse_ser_entity (c : Ctx) (ver) (code : Nat) (h : wfEntity code = true) (suf : Bytes) (tp ap cur) :
+    parseEntity (st c ver (0x02 :: (mb code ++ suf)) tp ap cur) = .ok (utf8 code, st c ver suf tp ap cur) :=
+  parseEntity_ser c ver code h suf tp ap cur
+
+/-- (d) `OPAQUE length *byte`. -/
+theorem parse_ser_opaque (c : Ctx) (ver) (d : Bytes) (h : d.length < 4294967296) (suf : Bytes) (tp ap cur) :
+    parseOpaque (st c ver (serOpaque d ++ suf) tp ap cur) = .ok (d, st c ver suf tp ap cur) :=
+  parseOpaque_ser c ver d h suf tp ap cur
+
+/-- (e) One attribute: start token (with its value prefix) or literal name, then the value
+    pieces — value tokens, strings, entities, opaque data, extensions, attribute-space
+    `SWITCH_PAGE` — up to the point where the `is_attr_value` look-ahead says "no". -/
+theorem parse_ser_attribute (c : Ctx) (ver) (hc : c.ok = true) (ap : Nat) (a : Attribute)
+    (ha : wfAttr c ap a = true) (suf : Bytes) (hstop : Stops c ver suf) (tp cur) :
+    parseAttribute (st c ver (serAttr a ++ suf) tp ap cur) =
+      .ok ((evAttr c ap a).1, st c ver suf tp (evAttr c ap a).2 cur) :=
+  parseAttribute_ser c ver hc ap a ha suf hstop tp cur
+
+/-- (e) The look-ahead stops exactly where the grammar ends an attribute: at `END` and at the
+    next attribute start; it goes on at every value piece. -/
+theorem parse_ser_attr_lookahead (c : Ctx) (ver) (ap : Nat) (suf : Bytes) :
+    Stops c ver (0x01 :: suf) ∧
+    (∀ a : AStart, wfAStart c ap a = true → Stops c ver (serAStart a ++ suf)) ∧
+    (∀ v : AVal, wfAVal c ap v = true → ∀ tp ap' cur, isAttrValue (st c ver (serAVal v ++ suf) tp ap' cur) = true) :=
+  ⟨stops_END c ver suf, fun a ha => stops_serAStart c ver ap a ha suf,
+   fun v hv tp ap' cur => isAttrValue_serAVal c ver ap v hv suf tp ap' cur⟩
+
+/-- (e) A non-empty attribute list up to its `END`. -/
+theorem parse_ser_attributes (c : Ctx) (ver) (hc : c.ok = true) (a : Attribute) (as : List Attribute) (ap : Nat)
+    (hwf : wfAttrs c ap (a :: as) = true) (suf : Bytes) (f : Nat) (hf : as.length < f)
+    (acc : List Attr) (tp cur) :
+    attrsLoop f acc (st c ver (serAttrs (a :: as) ++ 0x01 :: suf) tp ap cur) =
+      .ok (acc ++ (evAttrs c ap (a :: as)).1, st c ver (0x01 :: suf) tp (evAttrs c ap (a :: as)).2 cur) :=
+  attrsLoop_ser c ver hc a as ap hwf suf f hf acc tp cur
+
+/-- (f) Extensions: WML variables (`$(name:escape|:unesc|:noesc)`, inline or through the string
+    table), Wireless Village extension values, single-octet extensions. -/
+theorem parse_ser_extension (c : Ctx) (ver) (hc : c.ok = true) (tagSpace : Bool) (sw : Option Nat)
+    (hsw : wfSw sw = true) (x : Ext) (hx : wfExt c x = true) (suf : Bytes) (tp ap cur) :
+    parseExtension tagSpace (st c ver (serSw sw ++ (serExt x ++ suf)) tp ap cur) =
+      .ok (extText c x, st c ver suf (bif tagSpace then swPage sw tp else tp)
+        (bif tagSpace then ap else swPage sw ap) cur) :=
+  parseExtension_ser c ver hc tagSpace sw hsw x hx suf tp ap cur
+
+/-- (f) Processing instructions. -/
+theorem parse_ser_pi (c : Ctx) (ver) (hc : c.ok = true) (ap : Nat) (a : Attribute)
+    (ha : wfPi c ap a = true) (suf : Bytes) (tp cur) :
+    parsePi (st c ver (serPi a ++ suf) tp ap cur) = .ok ((evPi c ap a).1, st c ver suf tp (evPi c ap a).2 cur) :=
+  parsePi_ser c ver hc ap a ha suf tp cur
+
+/-! ## Corollaries: the clauses of the property, one by one -/
+
+/-- "The charset and language announced at document start are those the header selects":
+    the first event is `startDoc (headerCharset …) (headerLang …).id`. -/
+theorem start_document_reports_header (cfg : PCfg) (d : Doc) (h : d.WF cfg) :
+    ∃ l, headerLang cfg d.hdr = some l ∧
+      (parse cfg (ser d)).events.head? = some (.startDoc (headerCharset cfg d.hdr) l.id) := by
+  have hp := (parse_ser cfg d h).2
+  unfold Doc.WF Doc.wf at h
+  rw [Bool.and_eq_true] at h
+  cases hl : headerLang cfg d.hdr with
+  | none => simp [hl] at h
+  | some l =>
+    refine ⟨l, rfl, ?_⟩
+    rw [hp]
+    simp [events, hl, headerCtx]
+
+/-- "Tokens are resolved under the tag code page in force at that point": an element with a token
+    tag `t`, met while tag page `pg.tag` is in force (after its own optional `SWITCH_PAGE`), is
+    reported under the FIRST row of the language's tag table with that (page, token), in both its
+    start and its end event; the attribute page plays no role. -/
+theorem tag_resolved_under_current_page (c : Ctx) (ver) (hc : c.ok = true) (sw : Option Nat) (t : Nat)
+    (attrs : List Attribute) (content : Option (List Item)) (slot : Option TagRow) (pg : Pages)
+    (hwf : wfElem c slot pg (.mk sw (.tok t) attrs content) = true) (suf : Bytes) (ev : List Event) (f : Nat)
+    (hf : (serElem (.mk sw (.tok t) attrs content)).length ≤ f) :
+    ∃ row tags inner s',
+      c.lang.tags = some tags ∧
+      tags.find? (fun r => r.token == t && r.page == swPage sw pg.tag) = some row ∧
+      parseElement f ev (st c ver (serElem (.mk sw (.tok t) attrs content) ++ suf) pg.tag pg.attr slot) =
+        .ok (ev ++ (.startElt (.token row) (evAttrs c pg.attr attrs).1 :: (inner ++ [.endElt (.token row)])), s') := by
+  have hrun := parseElement_ser c ver hc _ slot pg hwf suf ev f hf
+  rw [wfElem_mk] at hwf
+  simp only [Bool.and_eq_true, wfTag] at hwf
+  obtain ⟨row, hrow⟩ := Option.isSome_iff_exists.mp hwf.1.1.2.2
+  have hrow' := hrow
+  simp only [tagRow] at hrow
+  cases htags : c.lang.tags with
+  | none => simp [htags] at hrow
+  | some tags =>
+    simp only [htags] at hrow
+    refine ⟨row, tags, (evContent c (some row) ⟨swPage sw pg.tag, (evAttrs c pg.attr attrs).2⟩ content).1,
+      st c ver suf (evElem c pg (.mk sw (.tok t) attrs content)).2.tag
+        (evElem c pg (.mk sw (.tok t) attrs content)).2.attr none, rfl, hrow, ?_⟩
+    rw [hrun, evElem_mk]
+    simp only [tagName, hrow']
+
+/-- The tag page set by an element's `SWITCH_PAGE` stays in force for what follows it. -/
+theorem tag_page_persists (c : Ctx) (pg : Pages) (sw : Option Nat) (tag : Tag) (attrs : List Attribute) :
+    (evElem c pg (.mk sw tag attrs none)).2.tag = swPage sw pg.tag := by
+  rw [evElem_mk, evContent_none]
+
+/-- "…under the tag OR ATTRIBUTE code page": the two code spaces have independent current pages.
+    An attribute is resolved under the attribute page only — the tag page in force has no
+    influence on what is delivered and is left unchanged by attribute-space `SWITCH_PAGE`s — and,
+    conversely, the attributes of an element are those of `evAttrs c pg.attr`, whatever tag page
+    the element's own `SWITCH_PAGE` selects. -/
+theorem attr_page_independent_of_tag_page (c : Ctx) (ver) (hc : c.ok = true) (ap : Nat) (a : Attribute)
+    (ha : wfAttr c ap a = true) (suf : Bytes) (hstop : Stops c ver suf) (tp tp' : Nat) (cur) :
+    (∃ s, parseAttribute (st c ver (serAttr a ++ suf) tp ap cur) = .ok ((evAttr c ap a).1, s) ∧ s.tagPage = tp) ∧
+    (∃ s, parseAttribute (st c ver (serAttr a ++ suf) tp' ap cur) = .ok ((evAttr c ap a).1, s) ∧ s.tagPage = tp') ∧
+    (∀ (pg : Pages) sw tag attrs content,
+      (evElem c pg (.mk sw tag attrs content)).1.head? =
+        some (.startElt (tagName c (swPage sw pg.tag) tag).1 (evAttrs c pg.attr attrs).1)) := by
+  refine ⟨⟨_, parseAttribute_ser c ver hc ap a ha suf hstop tp cur, rfl⟩,
+    ⟨_, parseAttribute_ser c ver hc ap a ha suf hstop tp' cur, rfl⟩, ?_⟩
+  intro pg sw tag attrs content
+  rw [evElem_mk]; rfl
+
+/-- "Literal names and string references [are resolved] through the document's string table":
+    a literal tag (`LITERAL`, `_A`, `_C`, `_AC`), a literal attribute name and a `STR_T` reference
+    with offset `off` all denote the string that starts at octet `off` of the table — any offset
+    inside the table, not only entry starts. -/
+theorem literal_via_strtbl (c : Ctx) (ver) (hc : c.ok = true) (hcs : csOk c = true) (off : Nat)
+    (hoff : off < c.tbl.length) (suf : Bytes) (tp ap : Nat) (cur) (a cb : Bool) :
+    parseStag (st c ver (serTag (tagFlags a cb) (.lit off) ++ suf) tp ap cur) =
+      .ok ((stagByte a cb (.lit off), .literal (strAt c.tbl off)), st c ver suf tp ap cur) ∧
+    parseAttrStart (st c ver (serAStart (.lit off) ++ suf) tp ap cur) =
+      .ok ((.literal (strAt c.tbl off), none), st c ver suf tp ap cur) ∧
+    parseString (st c ver (serStr (.tbl off) ++ suf) tp ap cur) = .ok (strAt c.tbl off, st c ver suf tp ap cur) := by
+  have hw : wfTag c tp (.lit off) = true := by simp [wfTag, hcs, hoff]
+  have hw2 : wfAStart c ap (.lit off) = true := by simp [wfAStart, hcs, hoff]
+  have hw3 : wfStr c (.tbl off) = true := by simp [wfStr, hcs, hoff]
+  exact ⟨parseStag_ser c ver hc tp a cb (.lit off) hw suf ap cur,
+    parseAttrStart_ser c ver hc ap (.lit off) hw2 suf tp cur,
+    parseString_ser c ver hc (.tbl off) hw3 suf tp ap cur⟩
+
+/-- The text of a list of value pieces is the concatenation of the texts of the pieces. -/
+theorem avalsText_eq_concat (c : Ctx) (ap : Nat) (v : AVal) (vs : List AVal) :
+    (avalsText c ap (v :: vs)).1 = (avalText c ap v).1 ++ (avalsText c (avalText c ap v).2 vs).1 := rfl
+
+/-- "Attribute values [are] the concatenation of their start-token prefix, value tokens, strings
+    and entities": the value delivered for an attribute that is not `%Datetime`-typed is the
+    prefix of its start token followed by the texts of its pieces in order (plus the trailing NUL
+    the parser appends to a non-empty value). -/
+theorem attr_value_is_concatenation (c : Ctx) (ver) (hc : c.ok = true) (ap : Nat) (a : Attribute)
+    (ha : wfAttr c ap a = true) (hnd : isDatetimeAttr c (astartName c ap a.start).1 = false)
+    (suf : Bytes) (hstop : Stops c ver suf) (tp cur) :
+    ∃ s, parseAttribute (st c ver (serAttr a ++ suf) tp ap cur) =
+      .ok ({ name := (astartName c ap a.start).1,
+             value := withNul ((astartName c ap a.start).2.1 ++
+               (avalsText c (astartName c ap a.start).2.2 a.vals).1) }, s) := by
+  refine ⟨st c ver suf tp (evAttr c ap a).2 cur, ?_⟩
+  rw [parseAttribute_ser c ver hc ap a ha suf hstop tp cur]
+  simp only [evAttr, attrValueText, hnd, Bool.and_false, Bool.false_eq_true, ↓reduceIte, Option.getD_some]
+
+/-- "Opaque data [is resolved] by the language's documented rule": opaque content of an element
+    whose own (token) tag is also what the parser's `current_tag` slot holds is delivered as
+    `decodeOpaqueContent lang own` — Wireless Village integer / date-time, base64 for DRMREL
+    `KeyValue` and SyncML `NextNonce`, the raw octets otherwise. -/
+theorem opaque_typed_rule (c : Ctx) (ver) (hc : c.ok = true) (own : Option TagRow) (pg : Pages) (d b : Bytes)
+    (hd : d.length < 4294967296) (hb : decodeOpaqueContent c.lang.id own d = .ok b)
+    (suf : Bytes) (ev : List Event) (f : Nat) (hf : (serOpaque d).length + 1 ≤ f) :
+    contentLoop f ev (st c ver (serOpaque d ++ 0x01 :: suf) pg.tag pg.attr own) =
+      .ok (ev ++ charsEv b, st c ver (0x01 :: suf) pg.tag pg.attr own) := by
+  have hwf : wfItems c own own pg [.opaque d] = true := by
+    rw [wfItems_cons, wfItem_opaque]
+    simp [opaqueText, hb, hd, wfItems]
+  have := contentLoop_ser c ver hc [.opaque d] own own pg hwf suf ev f (by
+    rw [serItems_cons, serItem_opaque, serItems_nil]; simpa using hf)
+  rw [serItems_cons, serItem_opaque, serItems_nil, List.append_nil, evItems_cons, evItem_opaque, evItems_nil] at this
+  simpa [opaqueText, hb, slotEnd, slotAfter] using this
+
+
+/-! ## Non-vacuity: concrete documents over the regenerated tables -/
+
+/-- The parser configuration of the library: the regenerated main table, nothing forced. -/
+def exCfg : PCfg := { main := Gen.main }
+
+/-- SyncML 1.2, multi-page: `<SyncML><SyncHdr><Meta><Format xmlns="syncml:metinf">b64</Format>…`;
+    `Format` lives on code page 1 (MetInf) and is reached by `SWITCH_PAGE 01`. -/
+def exSyncml : Doc where
+  hdr := { version := 2, pubid := .num 4609, charset := 106, strtbl := [] }
+  pre := []
+  post := []
+  root := .mk none (.tok 0x2D) [] (some [.elem (.mk none (.tok 0x2C) [] (some [
+    .elem (.mk none (.tok 0x1A) [] (some [
+      .elem (.mk (some 1) (.tok 0x07) [] (some [.str (.inl b!"b64")]))]))]))])
+
+example : exSyncml.WF exCfg := by decide +kernel
+
+example : ser exSyncml =
+    [0x02, 0xA4, 0x01, 0x6A, 0x00, 0x6D, 0x6C, 0x5A, 0x00, 0x01, 0x47, 0x03, 0x62, 0x36, 0x34, 0x00, 1, 1, 1, 1] := by
+  decide +kernel
+
+/-- The model run on those octets delivers the expected events: `Format` is resolved on page 1. -/
+example : (parse exCfg (ser exSyncml)).events =
+    [.startDoc 106 2201,
+     .startElt (.token ⟨b!"SyncML", 0, 0x2D, 0⟩) [], .startElt (.token ⟨b!"SyncHdr", 0, 0x2C, 0⟩) [],
+     .startElt (.token ⟨b!"Meta", 0, 0x1A, 0⟩) [], .startElt (.token ⟨b!"Format", 1, 0x07, 0⟩) [],
+     .chars b!"b64",
+     .endElt (.token ⟨b!"Format", 1, 0x07, 0⟩), .endElt (.token ⟨b!"Meta", 0, 0x1A, 0⟩),
+     .endElt (.token ⟨b!"SyncHdr", 0, 0x2C, 0⟩), .endElt (.token ⟨b!"SyncML", 0, 0x2D, 0⟩), .endDoc] := by
+  decide +kernel
+
+example : (parse exCfg (ser exSyncml)).events = events exCfg exSyncml := (parse_ser exCfg exSyncml (by decide +kernel)).2
+
+/-- WML 1.3: attributes (start tokens, a value token, an inline string, a table reference into the
+    MIDDLE of an entry), a WML variable, an entity, a literal element and a processing instruction. -/
+def exWml : Doc where
+  hdr := { version := 3, pubid := .num 0x0A, charset := 106, strtbl := [b!"xyzabc", b!"lit"] }
+  pre := []
+  post := []
+  root := .mk none (.tok 0x3F) [] (some [
+    .elem (.mk none (.tok 0x27) [⟨.tok none 0x55, [.str (.inl b!"c1")]⟩, ⟨.tok none 0x36, [.str (.tbl 3)]⟩] (some [
+      .elem (.mk none (.tok 0x20) [] (some [.str (.inl b!"Hi "), .ext none (.inl 0 b!"name"), .entity 0x20AC])),
+      .elem (.mk none (.tok 0x2B) [⟨.tok none 0x4A, [.str (.inl b!"example"), .tok none 0x85, .str (.inl b!"x.wml")]⟩] none),
+      .elem (.mk none (.lit 7) [] (some [.str (.tbl 0)])),
+      .pi ⟨.lit 7, [.str (.inl b!"d")]⟩]))])
+
+example : exWml.WF exCfg := by decide +kernel
+
+/-- `title="abc"` comes from offset 3 of the entry `xyzabc`; `href` is the concatenation
+    `example` ++ `.com/` (value token 0x85) ++ `x.wml`, with the parser's trailing NUL. -/
+example : (parse exCfg (ser exWml)).events =
+    [.startDoc 106 1104,
+     .startElt (.token ⟨b!"wml", 0, 0x3F, 0⟩) [],
+     .startElt (.token ⟨b!"card", 0, 0x27, 0⟩)
+       [⟨.token ⟨b!"id", none, 0, 0x55⟩, b!"c1" ++ [0]⟩, ⟨.token ⟨b!"title", none, 0, 0x36⟩, b!"abc" ++ [0]⟩],
+     .startElt (.token ⟨b!"p", 0, 0x20, 0⟩) [],
+     .chars b!"Hi ", .chars b!"$(name:escape)", .chars [0xE2, 0x82, 0xAC],
+     .endElt (.token ⟨b!"p", 0, 0x20, 0⟩),
+     .startElt (.token ⟨b!"go", 0, 0x2B, 0⟩) [⟨.token ⟨b!"href", none, 0, 0x4A⟩, b!"example.com/x.wml" ++ [0]⟩],
+     .endElt (.token ⟨b!"go", 0, 0x2B, 0⟩),
+     .startElt (.literal b!"lit") [], .chars b!"xyzabc", .endElt (.literal b!"lit"),
+     .pi b!"lit" (b!"d" ++ [0]),
+     .endElt (.token ⟨b!"card", 0, 0x27, 0⟩), .endElt (.token ⟨b!"wml", 0, 0x3F, 0⟩), .endDoc] := by
+  decide +kernel
+
+/-- SI: a `%Datetime` attribute (opaque BCD ⇒ ISO text) and a start token with a value prefix. -/
+def exSi : Doc where
+  hdr := { version := 1, pubid := .num 5, charset := 106, strtbl := [] }
+  pre := []
+  post := []
+  root := .mk none (.tok 0x05) [] (some [
+    .elem (.mk none (.tok 0x06) [⟨.tok none 0x0A, [.opaque [0x19, 0x99, 0x06, 0x25, 0x09, 0x30]]⟩,
+        ⟨.tok none 0x0C, [.str (.inl b!"example"), .tok none 0x85]⟩] (some [.str (.inl b!"You have mail")]))])
+
+example : exSi.WF exCfg := by decide +kernel
+
+example : (parse exCfg (ser exSi)).events =
+    [.startDoc 106 1301,
+     .startElt (.token ⟨b!"si", 0, 0x05, 0⟩) [],
+     .startElt (.token ⟨b!"indication", 0, 0x06, 0⟩)
+       [⟨.token ⟨b!"created", none, 0, 0x0A⟩, b!"1999-06-25T09:30:00Z" ++ [0]⟩,
+        ⟨.token ⟨b!"href", some b!"http://", 0, 0x0C⟩, b!"http://example.com/" ++ [0]⟩],
+     .chars b!"You have mail",
+     .endElt (.token ⟨b!"indication", 0, 0x06, 0⟩), .endElt (.token ⟨b!"si", 0, 0x05, 0⟩), .endDoc] := by
+  decide +kernel
+
+/-- Wireless Village 1.1: typed integer content (`Code` = 200), an extension value. -/
+def exWv : Doc where
+  hdr := { version := 3, pubid := .num 0x10, charset := 106, strtbl := [] }
+  pre := []
+  post := []
+  root := .mk none (.tok 0x09) [] (some [
+    .elem (.mk none (.tok 0x0B) [] (some [.opaque [0x00, 0xC8]])),
+    .elem (.mk none (.tok 0x0D) [] (some [.ext none (.tbl 0 0x05)]))])
+
+example : exWv.WF exCfg := by decide +kernel
+example : (parse exCfg (ser exWv)).events = events exCfg exWv := (parse_ser exCfg exWv (by decide +kernel)).2
+example : Event.chars b!"200" ∈ (parse exCfg (ser exWv)).events := by decide +kernel
+
+/-- A textual public identifier in the string table, in different letter case, and a forced
+    language: both select SyncML 1.2. -/
+def exTextualId : Doc where
+  hdr := { version := 3, pubid := .str 0, charset := 106, strtbl := [b!"-//syncml//dtd SYNCML 1.2//en"] }
+  pre := []
+  post := []
+  root := .mk none (.tok 0x2D) [] none
+
+example : exTextualId.WF exCfg := by decide +kernel
+example : (parse exCfg (ser exTextualId)).events.head? = some (.startDoc 106 2201) := by decide +kernel
+example : ({ exSyncml with hdr := { exSyncml.hdr with pubid := .num 1 } } : Doc).WF
+    { main := Gen.main, langForced := 2201 } := by decide +kernel
+
+/-! ## Observations: shapes outside `WF`, and what the parser does there
+
+  `WF` is the domain of `parse_ser`. The three shapes below are excluded; each theorem exhibits a
+  concrete document of the shape on which the parser's events differ from `Spec.events`, so the
+  exclusion is visible (and justified) rather than silent. -/
+
+/-- `ENTITY 0`: the specification's denotation is the character U+0000; the parser builds the
+    text with `wbxml_buffer_create_from_cstr` and so delivers nothing (known finding
+    `entity-code-0`, property C11). -/
+def obsEntity0 : Doc where
+  hdr := { version := 3, pubid := .num 4609, charset := 106, strtbl := [] }
+  pre := []
+  post := []
+  root := .mk none (.tok 0x2D) [] (some [.entity 0])
+
+theorem entity_zero_observation :
+    ¬ obsEntity0.WF exCfg ∧ (parse exCfg (ser obsEntity0)).result.toBool = true ∧
+    Event.chars [0] ∈ events exCfg obsEntity0 ∧ Event.chars [0] ∉ (parse exCfg (ser obsEntity0)).events := by
+  decide +kernel
+
+/-- Typed content after a child element: the parser keeps ONE `current_tag` slot and clears it at
+    every element end, so the integer-typed `Code` (WV page 0, 0x0B) delivers the raw octet `*`
+    where the rule of the element's own tag gives `42`. -/
+def obsTypedAfterChild : Doc where
+  hdr := { version := 3, pubid := .num 0x10, charset := 106, strtbl := [] }
+  pre := []
+  post := []
+  root := .mk none (.tok 0x0B) [] (some [.elem (.mk none (.tok 0x05) [] none), .opaque [0x2A]])
+
+theorem typed_opaque_after_child_observation :
+    ¬ obsTypedAfterChild.WF exCfg ∧ (parse exCfg (ser obsTypedAfterChild)).result.toBool = true ∧
+    Event.chars b!"42" ∈ events exCfg obsTypedAfterChild ∧
+    Event.chars b!"*" ∈ (parse exCfg (ser obsTypedAfterChild)).events := by
+  decide +kernel
+
+/-- A literal-named element does not replace the slot: opaque content of `<x>` inside the
+    integer-typed `Code` is decoded by `Code`'s rule (`42`), where its own (literal) tag has none. -/
+def obsLiteralInherits : Doc where
+  hdr := { version := 3, pubid := .num 0x10, charset := 106, strtbl := [b!"x"] }
+  pre := []
+  post := []
+  root := .mk none (.tok 0x0B) [] (some [.elem (.mk none (.lit 0) [] (some [.opaque [0x2A]]))])
+
+theorem literal_inherits_typed_slot_observation :
+    ¬ obsLiteralInherits.WF exCfg ∧ (parse exCfg (ser obsLiteralInherits)).result.toBool = true ∧
+    Event.chars b!"*" ∈ events exCfg obsLiteralInherits ∧
+    Event.chars b!"42" ∈ (parse exCfg (ser obsLiteralInherits)).events := by
+  decide +kernel
 
 end Wbxml.Props.C04
